@@ -218,6 +218,22 @@ def extras(ctx):
         kind, a = gen.any_record(rng, n, dt)
         inputs = {'a': a, 'dt': dt}
         ctx.count_case(('extras', a.tobytes(), dt), gen.nontrivial_record(a))
+        # (a0) `trap` passed positionally is `trap` passed by keyword (third positional parameter of the documented signature)
+        for trap in (True, False):
+            rk = call_impl(sd.calc_velo_and_disp_from_accel_arr, a, dt, trap=trap)
+            rp = call_impl(sd.calc_velo_and_disp_from_accel_arr, a, dt, trap)
+            rq = call_impl(sd.velocity_and_displacement_from_acceleration, a, dt, trap)
+            ctx.oracle('C08 calc_velo_and_disp_from_accel_arr(a, dt, trap) positional == keyword trap= (== for the alias)',
+                       rk[0] == rp[0] == rq[0] and (rk[0] != 'ok' or all(np.array_equal(x, y) and np.array_equal(x, z) for x, y, z in zip(rk[1], rp[1], rq[1]))),
+                       {**inputs, 'trap': trap})
+        # (a1) the object integrates with the time step it was given, also when 1/dt is NEAR a whole number but not equal to it
+        dtn = rng.choice([0.01000005, 1 / 49.9996, 0.0200001, 0.00999995, 1 / 100.0005, 0.005 * (1 + 2.0 ** -30), 1 / 199.9993])
+        on = ctx.aged(eqsig.AccSignal, a, dtn)
+        wv, wd = sd.calc_velo_and_disp_from_accel_arr(a, dtn)
+        ctx.hist('dt near 1/n')
+        ctx.oracle('C08 object-level velocity/displacement == array-level result for the time step given to the constructor (dt with 1/dt near a whole number); '
+                   'the object reports that time step', bool(on.dt == dtn and np.array_equal(on.velocity, wv) and np.array_equal(on.displacement, wd)),
+                   {'a': a, 'dt': dtn}, detail={'object dt': on.dt})
         # (a) documented aliases are the same functions
         for trap in (True, False):
             r0 = call_impl(sd.calc_velo_and_disp_from_accel_arr, a, dt, trap=trap)
